@@ -293,6 +293,56 @@ def stale_reopen_history(max_ch, warm):
     return out
 
 
+def invalid_close_history(max_ch, bad):
+    """close() refused for an invalid argument (nothing is sent): the channel is still open at the broker, so its number must
+    not be handed out again"""
+    import amqpstorm
+    out = {}
+    policy = refbroker.Policy()
+    policy.channel_max = max_ch
+
+    def scenario(ctx):
+        conn = amqpstorm.Connection('localhost', 'guest', 'guest', heartbeat=0, timeout=1)
+        broker = ctx.net.brokers[0]
+        chans = [conn.channel(rpc_timeout=2) for _ in range(max_ch)]
+        victim = chans[-1]
+        try:
+            victim.close(*bad)
+            out['close'] = 'returned'
+        except amqpstorm.AMQPInvalidArgument:
+            out['close'] = 'invalid-argument'
+        except amqpstorm.AMQPError as why:
+            out['close'] = type(why).__name__
+        out['closes_sent'] = len(broker.frames_in('Channel.Close', victim.channel_id))
+        try:
+            victim.close()                      # a later, correct close
+        except amqpstorm.AMQPError:
+            pass
+        out['closes_sent_after_second'] = len(broker.frames_in('Channel.Close', victim.channel_id))
+        try:
+            out['next'] = conn.channel(rpc_timeout=2).channel_id
+        except amqpstorm.AMQPError as why:
+            out['next'] = type(why).__name__
+        out['broker'] = [v for v in broker.violations if 'Channel.Open' in v]
+    ctx = vrt.run_scenario(scenario, refbroker.factory(policy), seed=1, p_preempt=0.0, p_jump=0.0, repo_path=str(common.REPO))
+    out['abort'] = ctx.sched.abort_reason
+    return out
+
+
+def seq_invalid_close(rep, rng):
+    max_ch = rng.choice([1, 2, 3])
+    bad = rng.choice([('200',), (200, 5), (None,), (3.5, 'x')])
+    r = invalid_close_history(max_ch, bad)
+    replay = {'kind': 'invalid-close', 'max': max_ch, 'bad': list(bad)}
+    rep.case(('invalid-close', max_ch, repr(bad)), True, sample=replay)
+    if r['abort'] != 'all application threads finished':
+        rep.violation('C10/invalid-close/run-did-not-finish', 'scenario ended with %s' % r['abort'], replay)
+    elif r.get('broker') or (r.get('closes_sent_after_second') == 0 and r.get('next') == max_ch):
+        rep.violation('C10/number-reused-without-close', 'close%r was refused (%s) and a correct close() followed; %d Channel.Close frame(s) were '
+                      'sent in all, yet channel() handed out %r%s' % (tuple(bad), r.get('close'), r.get('closes_sent_after_second', 0), r.get('next'),
+                                                                   ('; the broker saw: ' + r['broker'][0]) if r.get('broker') else ''), replay)
+
+
 def seq_stale_reopen(rep, rng, lines, expect, meta):
     max_ch = rng.choice([0, 1, 2, 5])
     warm = rng.randint(0, 2) if max_ch in (0, 5) else max_ch - 1
@@ -552,6 +602,7 @@ def check(rep):
     rep.count('seq', 'A', len(lines) // 2)
     for _ in range(4 if not thorough else 40):
         seq_stale_reopen(rep, rng, lines, expect, meta)
+        seq_invalid_close(rep, rng)
     for _ in range(20 if not thorough else 200):
         for stage in (seq_alloc_during_closeok, seq_number_freed_only_after_handshake, seq_open_timeout):
             try:
@@ -641,6 +692,10 @@ def replay(data):
         live = {c for c, s in r['registry'] if s != 0}
         print('nextId ->', exp)
         bad = (i is None and any(c not in live for c in range(1, r['max'] + 1))) or (i is not None and (i in live or not 1 <= i <= r['max']))
+    elif r['kind'] == 'invalid-close':
+        o = invalid_close_history(r['max'], tuple(r['bad']))
+        print(o)
+        bad = bool(o.get('broker')) or (o.get('closes_sent_after_second') == 0 and o.get('next') == r['max']) or o['abort'] != 'all application threads finished'
     elif r['kind'] == 'stale-reopen':
         o = stale_reopen_history(r['max'], r['warm'])
         print(o)
